@@ -281,6 +281,16 @@ def is_sym(x):
     return isinstance(x, (SymReal, SymBool))
 
 
+def _uf_default(name, fargs, rng):
+    """fixed smooth pseudo-random function used for uninterpreted backends in concrete / pinned runs"""
+    h = int(hashlib.sha1(name.encode()).hexdigest()[:8], 16)
+    acc = (h % 1000) / 1000.0
+    for i, a in enumerate(fargs):
+        acc += math.sin((i + 1.37) * a + (h % 97) * 0.1 * (i + 1))
+    lo, hi = rng
+    return round(lo + (hi - lo) * (0.5 + 0.5 * math.sin(acc * 1.7 + 0.3)), 9)
+
+
 # --------------------------------------------------------------------------- definitions
 
 class Def:
@@ -351,6 +361,7 @@ class Ctx:
         self.unknown_branches = 0
         self._std_hyps = None
         self.pending = []
+        self.uf_records = []
         if mode == "symbolic":
             self.solver = z3.Solver()
             self.solver.set("timeout", self.opts.get("branch_timeout_ms", BRANCH_TIMEOUT_MS))
@@ -660,7 +671,7 @@ class Ctx:
             cons.append(z3.And(y >= -1, y <= 1)); self.axioms_used.add("|%s(x)| <= 1" % f)
         if f == "erfc":
             cons.append(z3.And(y >= 0, y <= 2)); self.axioms_used.add("0 <= erfc(x) <= 2")
-        pi = self.pi().t if f in ("arcsin", "arccos") else None
+        pi = (self.pi().t if self.opts.get("symbolic_pi", False) else rv(math.pi)) if f in ("arcsin", "arccos") else None
         if f == "arccos":
             cons.append(z3.And(y >= 0, y <= pi)); self.axioms_used.add("0 <= arccos(x) <= pi")
         if f == "arcsin":
@@ -747,6 +758,37 @@ class Ctx:
                 self._setpin(y, Fraction(math.pow(av, bv)))
             except (ValueError, OverflowError, ZeroDivisionError):
                 raise Reject("pinned pow domain")
+        return SymReal(y, 1)
+
+    def uf(self, name, *args, rng=(0.1, 2.0)):
+        """application of an uninterpreted function `name` (a deterministic but otherwise arbitrary backend):
+        symbolic: fresh constant with congruence axioms against earlier applications;
+        concrete: the value the solver's model gave to the matching application (replay), else a fixed pseudo-random
+        smooth function of the arguments (shim validation)."""
+        if self.mode == "concrete":
+            fargs = [float(a) for a in args]
+            recs = self.values.get("__uf__", {}).get(name, [])
+            for (avals, val) in recs:
+                if len(avals) == len(fargs) and all(abs(x - y) <= 1e-9 * max(1.0, abs(x), abs(y)) for x, y in zip(avals, fargs)):
+                    return float(val)
+            return _uf_default(name, fargs, rng)
+        largs = [SymReal.lift(a) for a in args]
+        apps = self._ufapps.setdefault("user:" + name, [])
+        for (ats, v) in apps:
+            if len(ats) == len(largs) and all(x.get_id() == y.t.get_id() for x, y in zip(ats, largs)):
+                return SymReal(v, 1)
+        y = self.fresh("uf_" + name)
+        cons = []
+        for (ats, v) in apps:
+            if len(ats) == len(largs):
+                cons.append(z3.Implies(z3.And(*[x == yy.t for x, yy in zip(ats, largs)]) if largs else z3.BoolVal(True), v == y))
+        self.axioms_used.add("%s: congruence (uninterpreted backend function)" % name)
+        apps.append(([a.t for a in largs], y))
+        self.uf_records.append((name, y, [a.t for a in largs]))
+        self.add_def(Def(y, "uf:user:" + name, [a.t for a in largs], cons))
+        if self.mode == "pinned":
+            fargs = [float(self.evalz(a.t)) for a in largs]
+            self._setpin(y, Fraction(_uf_default(name, fargs, rng)))
         return SymReal(y, 1)
 
     def pi(self):
